@@ -10,10 +10,12 @@ func propC17(c *Ctx, r *Report) {
 	r.Clauses = append(r.Clauses,
 		"total setters (E7, go/cfg must-assign): a backend method that computes per-entry-point binding state into a receiver field on two or more result-like paths (assign-then-return) assigns it on every non-error path, so no entry point is emitted with the slot map / interface state left by the previous one")
 	r.NotDecided = append(r.NotDecided,
-		"that decoration operands, registers, slots and layout qualifiers carry the right numbers; exactness of interface lists; truthfulness of reflection structs")
+		"that decoration operands, registers, slots and layout qualifiers carry the right numbers (the words are checked, the numbers are not); exactness of interface lists; truthfulness of reflection structs")
 	c.runPartialSetters(r, "setter.total", "setters", inPkgs("msl/internal/codegen", "glsl/internal/codegen", "hlsl/internal/codegen", "spirv/internal/codegen", "msl", "glsl", "hlsl", "spirv"), setterExceptions)
 	r.Clauses = append(r.Clauses, "block recursion (E3): the statement walkers of the four backends that collect the globals / calls an entry point uses (interface lists, per-entry-point resource sets) descend into every nested block")
 	c.runBlockWalkers(r, "operands", "backends", inPkgs("spirv/internal/codegen", "msl/internal/codegen", "hlsl/internal/codegen", "glsl/internal/codegen"), nil)
+	r.Clauses = append(r.Clauses, enumMapClause)
+	c.runEnumTables(r, "spirv", "hlsl", "msl", "glsl")
 	r.Clauses = append(r.Clauses, guardAgreeClause)
 	c.runGuardAgree(r, "guard.agree", inPkgs("msl", "hlsl", "glsl", "spirv"))
 	r.floor("guard.agree", 4)
